@@ -40,6 +40,24 @@ def check_case(case, fenced=True):
         return ("refused:" + type(e).__name__, "%r -> %s: %s" % (text, type(e).__name__, e))
     except Exception as e:
         return ("foreign:" + _bucket(e), "%r -> %s: %s" % (text, type(e).__name__, str(e)[:300]))
+    # the documented three-step style: parse, optionally modify the tree, visitor, annotate, filter
+    try:
+        from odata_query.django.django_q import AstToDjangoQVisitor
+        a = lib.parse(text)
+        if len(text) % 2 == 0:
+            from odata_query.rewrite import AliasRewriter
+            a = AliasRewriter({"zz_not_a_field": "zz/other"}).visit(a)
+        v = AstToDjangoQVisitor(M.Item)
+        q = v.visit(a)
+        qs2 = M.Item.objects.all()
+        if v.queryset_annotations:
+            qs2 = qs2.annotate(**v.queryset_annotations)
+        ids2 = list(qs2.filter(q).values_list("id", flat=True))
+    except Exception as e:
+        return ("visitor-style:" + ("refused:" + type(e).__name__ if isinstance(e, exceptions.ODataException) else "foreign:" + _bucket(e)),
+                "%r accepted by the shorthand but the visitor used directly -> %s: %s" % (text, type(e).__name__, str(e)[:300]))
+    if sorted(ids2) != sorted(ids):
+        return ("entry-styles-differ", "%r: shorthand selects %r, visitor used directly selects %r" % (text, sorted(ids), sorted(ids2)))
     bad, stats = semcheck.compare(t, case["rows"], set(ids), fences=(set(known_ids(PROPERTY_ID)) if fenced else set()) | {"int-div-truncates"})
     case["_stats"] = stats
     if bad:
